@@ -610,6 +610,7 @@ theorem addResponse_im {d anc c c'} (h : addResponse d anc c = .ok c') : IMap c 
   unfold addResponse at h
   simp only [fail] at h
   split at h; · cases h
+  split at h; · cases h
   obtain ⟨nt, _, h⟩ := bind_ok h
   generalize (d.kind == Kind.Body && _) = clash at h
   split at h; · cases h
@@ -1281,6 +1282,7 @@ theorem addResponse_obliv (d : BDir) (anc) : Obliv (addResponse d anc) := by
   intro ts c
   unfold addResponse
   simp only [fail]
+  ofail
   ofail
   refine bind_obliv _ _ _ (fun nt => ?_)
   generalize (d.kind == Kind.Body && _) = clash
